@@ -344,6 +344,11 @@ func (se *symExec) runFuncFrom(fd *ast.FuncDecl, vals []*val, names []string, st
 			n++
 		}
 	}
+	if se.tableMode && fd.Recv != nil && len(fd.Recv.List) == 1 && len(fd.Recv.List[0].Names) == 1 {
+		if obj := se.info.Defs[fd.Recv.List[0].Names[0]]; obj != nil {
+			se.params[obj] = "recv"
+		}
+	}
 	se.overflow = false
 	fn, _ := se.info.Defs[fd.Name].(*types.Func)
 	se.inStack = []*types.Func{fn}
@@ -781,6 +786,13 @@ func (se *symExec) stableSelection(e ast.Expr) bool {
 			}
 		}
 		return se.stableOperand(x.X) && se.stableOperand(x.Index)
+	case *ast.CallExpr:
+		// a conversion of a stable variable: mangled := string(name)
+		if tv, ok := se.info.Types[x.Fun]; ok && tv.IsType() && len(x.Args) == 1 {
+			if _, isId := unparen(x.Args[0]).(*ast.Ident); isId {
+				return se.stableOperand(x.Args[0])
+			}
+		}
 	}
 	return false
 }
@@ -1620,6 +1632,24 @@ func (se *symExec) branch(cond ast.Expr, st *sstate) (tr, fa []*sstate) {
 		cs := se.canon(cond)
 		if r.v.kind == vBool && r.v.desc != "" && identOf(cond) != nil {
 			cs = r.v.desc // a flag variable is shown as the test that produced it
+		}
+		if call, isCall := cond.(*ast.CallExpr); isCall && se.tableMode && len(r.st.calls) > 0 {
+			// a predicate call is shown with the values of its operands, not the names of the locals holding them
+			if last := r.st.calls[len(r.st.calls)-1]; last.pos == call.Pos() {
+				var as []string
+				for _, a := range last.args {
+					as = append(as, a.String())
+				}
+				recv := ""
+				if last.recv != nil {
+					recv = last.recv.String() + "."
+				}
+				short := last.callee
+				if i := strings.LastIndex(short, ")."); i >= 0 {
+					short = short[i+2:]
+				}
+				cs = recv + short + "(" + strings.Join(as, ", ") + ")"
+			}
 		}
 		posT, negT := normCond(cs), normCond("!("+cs+")")
 		if r.v.kind == vBool && r.v.lin != nil && negOp[r.v.cmp] != "" {
